@@ -347,8 +347,15 @@ func (g *gen) mismatchUpdate(target string) *gnmi.Update {
 		p = &gnmi.Path{Target: target, Elem: []*gnmi.PathElem{{Name: "cont"}, {Name: g.pick(contLeaves)}}}
 	}
 	var v *gnmi.TypedValue
-	for v == nil || v.GetJsonVal() != nil {
-		v = g.value()
+	switch g.r.Intn(6) {
+	case 0: // the arms that look type options up
+		v = &gnmi.TypedValue{Value: &gnmi.TypedValue_UintVal{UintVal: []uint64{0, 7, 255, math.MaxUint64}[g.r.Intn(4)]}}
+	case 1:
+		v = &gnmi.TypedValue{Value: &gnmi.TypedValue_IntVal{IntVal: []int64{0, -7, 300, math.MinInt64}[g.r.Intn(4)]}}
+	default:
+		for v == nil || v.GetJsonVal() != nil {
+			v = g.value()
+		}
 	}
 	return &gnmi.Update{Path: p, Val: v}
 }
